@@ -39,6 +39,7 @@ NO_BB = {"tx.ternary", "tx.miter", "tx.unroll", "tx.sensitization_transform", "t
          "tx.supergates", "props.influence", "props.avg_sensitivity", "props.sensitivity", "props.sensitize", "io.circuit_to_bench",
          "tx.subcircuit", "props.signal_probability"}
 NEED_BB = {"tx.sequential_unroll"}
+WRITERS = {"io.circuit_to_bench", "io.to_file", "io.circuit_to_verilog", "tx.syn", "tx.aig", "utils.visualize"}
 ESCAPED = {"io.circuit_to_verilog", "io.to_file", "tx.syn", "tx.aig", "utils.visualize"}
 SAT = {"props.influence", "props.avg_sensitivity", "props.sensitivity", "props.sensitize", "props.signal_probability",
        "sat.construct_solver", "sat.cnf", "sat.solve", "sat.approx_model_count", "sat.model_count"}
@@ -68,6 +69,8 @@ def splice_bb(rng, d, inst, bbname):
             d["nodes"].append([f"{inst}.{p}", "bb_input", False, [p]])
     for p in outs:
         d["nodes"].append([f"{inst}.{p}", "bb_output", False, []])
+        if p != "q" and rng.random() < 0.6:
+            continue                      # a Q/QN flop whose QN is not used: an unloaded bb_output pin (still lint-clean)
         buf = q if p == "q" else f"{inst}_{p}buf"
         d["nodes"].append([buf, "buf", p != "q", [f"{inst}.{p}"]])
     if not any(q in n[3] for n in d["nodes"]):
@@ -76,7 +79,27 @@ def splice_bb(rng, d, inst, bbname):
     return d
 
 
+def const_circuit(rng):
+    """no primary input: one or two constants (sometimes an x), up to three gates over them"""
+    nodes = [[f"k{i}", t, False, []] for i, t in enumerate(rng.sample(["0", "1"], rng.randint(1, 2)))]
+    if rng.random() < 0.35:
+        nodes.append(["kx", "x", False, []])
+    for i in range(rng.choice([0, 0, 1, 2, 3])):
+        avail = [n[0] for n in nodes]
+        t = rng.choice(lib.GATES)
+        fi = rng.sample(avail, 1 if t in lib.SINGLE else min(len(avail), rng.randint(1, 2)))
+        nodes.append([f"g{i}", t, False, sorted(fi)])
+    used = {f for n in nodes for f in n[3]}
+    for n in nodes:
+        n[2] = n[0] not in used or rng.random() < 0.3
+    return {"name": "top", "nodes": nodes, "bbs": []}
+
+
 def gen_circuit(rng, fn, big):
+    if fn in WRITERS and rng.random() < 0.3:
+        d = const_circuit(rng)
+        d["via"] = rng.choice(["attrs", "graph"])
+        return d
     sat = fn in SAT
     d = lib.rand_dag(rng, rng.randint(1, 3), rng.randint(1, 4 if sat else (9 if big else 6)), max_fanin=3, p_const=0.3)
     p_bb = 0.9 if fn in NEED_BB else 0.4 if fn == "props.influence" else 0.2 if fn in NO_BB else 0.5
@@ -227,7 +250,7 @@ def _call(cg, fn, c, case, others, tmp):
     if fn == "sat.approx_model_count": return sat.approx_model_count(c, assumptions={n: flag} if k > 1 else None, use_xor_clauses=(k == 3))
     if fn == "sat.model_count": return sat.model_count(c, assumptions={n: flag} if k > 1 else None)
     if fn == "io.to_file":
-        fmt = "verilog" if k != 2 else ("bench" if flag else "other")
+        fmt = "verilog" if k == 1 else "bench" if k == 2 else ("verilog" if flag else "other")
         return cg.io.to_file(c, f"{tmp}/out.{'bench' if fmt == 'bench' else 'v'}", fmt=fmt, behavioral=flag)
     if fn == "io.circuit_to_verilog": return cg.io.circuit_to_verilog(c, behavioral=flag)
     if fn == "io.circuit_to_bench": return cg.io.circuit_to_bench(c)
@@ -322,9 +345,39 @@ def _circuits_in(x, cg, depth=0, seen=None):
 def _edit(cg, rng, c, tag):
     """random edits, each of which really changes the circuit"""
     g = c.graph
+    first = None
+    if c.blackboxes and rng.random() < 0.6:
+        first = rng.choice(["ru_true", "ru_true", "ru_false", "fill"])      # mutators that work on the instances, while they are intact
     for i in range(rng.randint(4, 6)):
         names = list(g.nodes)
-        op = rng.choice(["add", "remove", "attr", "edge", "registry", "name", "output"])
+        op = first if i == 0 and first else rng.choice(["add", "remove", "attr", "edge", "registry", "name", "output", "ru_true", "ru_false",
+                                                       "set_type", "fill"])
+        if op in ("ru_true", "ru_false"):
+            if c.remove_unloaded(inputs=(op == "ru_true")):
+                continue
+            op = "name"                   # nothing was unloaded: make sure this step still changes something
+        if op == "fill":
+            inst = sorted(c.blackboxes)[0] if c.blackboxes else None
+            bb = c.blackboxes.get(inst)
+            try:
+                if bb is None or not all(f"{inst}.{p}" in g for p in bb.io()):
+                    raise ValueError
+                f = cg.Circuit("filler")
+                for p in sorted(bb.inputs()):
+                    f.add(p, "input")
+                for p in sorted(bb.outputs()):
+                    f.add(p, "or" if len(bb.inputs()) > 1 else "buf", fanin=sorted(bb.inputs())[:2], output=True)
+                c.fill_blackbox(inst, f)
+                continue
+            except ValueError:
+                op = "name"
+        if op == "set_type":
+            cand = [x for x in names if g.nodes[x].get("type") in ("and", "or", "nand", "nor", "xor", "xnor")]
+            if cand:
+                x = rng.choice(cand)
+                c.set_type(x, "nand" if g.nodes[x]["type"] != "nand" else "nor")
+                continue
+            op = "name"
         if op == "add" or not names:
             nn = f"zz_{tag}_{i}"
             c.add(nn, rng.choice(["and", "or", "xor"]), fanin=[x for x in rng.sample(names, min(2, len(names))) if "." not in x],
